@@ -69,7 +69,7 @@ def vacuity(unit_res, workdir):
     new = head + ptxt + tail[j:]
     ppath = path.replace(".rs", "_vacuity.rs")
     open(ppath, "w").write(new)
-    run = vdrv.run_verus(ppath, extra=["--verify-only-module", "props"], rlimit=30)
+    run = vdrv.run_verus(ppath, extra=["--verify-only-module", "props"], rlimit=2, timeout=600)
     if run["json"] is None or (run["json"].get("verification-results", {}).get("verified", 0) == 0 and run["json"].get("verification-results", {}).get("errors", 0) == 0):
         raise vdrv.ToolFailure("vacuity probe run produced no result:\n" + run["stderr"][-2000:])
     # a probe is vacuous iff Verus VERIFIED the function although it ends in assert(false);
@@ -86,13 +86,22 @@ def vacuity(unit_res, workdir):
     return vac, len(probes)
 
 
+def _fail_set(kind, info):
+    if kind != "semantic":
+        return set()
+    return set((d["msg"], tuple(sorted(set(l for (_, l, _) in d["locs"])))) for d in info)
+
+
 def seed_variation(unit_res, seed):
+    """the verdict (set of failing obligations; empty on a clean tree, the known findings otherwise)
+    must be the same under other SMT seeds"""
+    base = _fail_set(unit_res["kind"], unit_res["info"])
     flips = []
     for s in (seed + 101, seed + 977):
         run = vdrv.run_verus(unit_res["path"], seed=s)
         kind, info = vdrv.classify(run)
-        if kind != "ok":
-            flips.append({"seed": s, "kind": kind, "detail": (run["stderr"][-800:] if kind != "ok" else "")})
+        if kind == "tool" or _fail_set(kind, info) != base:
+            flips.append({"seed": s, "kind": kind, "detail": run["stderr"][-800:]})
     return flips
 
 
